@@ -273,6 +273,9 @@ theorem accLoop_stops_at_end (f : Nat) (P : Prog) (s : St) (i : Nat) (it : IterB
     (h : it.pos = m) : accLoop (f+1) P s i it m arg mode k r = some (s, .ok, r) :=
   accLoop_at_end f P s i it m arg mode k r h
 
+example : accLoop 1 exProg exSt 1 { pos := 6 } 6 5 0 0 7 = some (exSt, .ok, 7) :=
+  accLoop_stops_at_end 0 _ _ _ _ _ _ _ _ _ rfl
+
 /-- `never`: `++it` without dereferencing -/
 theorem accLoop_never_moves (f : Nat) (P : Prog) (s : St) (i : Nat) (it : IterBuf) (m arg k r : Nat)
     (im : Impl) (nxt : Nat) (hne : it.pos ≠ m) (hi : aget s.impls i = some im)
@@ -293,11 +296,18 @@ theorem accLoop_sum_moves (f : Nat) (P : Prog) (s s1 : St) (i : Nat) (it it' : I
       = accLoop f P s1 i { it' with pos := nxt, invoked := false } m arg 0 k (r + it'.buf) :=
   accLoop_sum_step f P s s1 i it it' m arg k r im nxt hne hd hi hn
 
+example : accLoop 3 exProg exSt 1 { pos := 2 } 6 5 0 0 0
+    = accLoop 2 exProg exSt2 1 { pos := 3, invoked := false, buf := 75 } 6 5 0 0 (0 + 75) :=
+  accLoop_sum_moves 2 exProg exSt exSt2 1 _ _ 6 5 0 0 exImpl 3 (by decide) exDeref2 rfl (by decide)
+
 /-- `stop k`: returns as soon as the running sum reaches `k` (later positions are never dereferenced) -/
 theorem accLoop_stop_returns (f : Nat) (P : Prog) (s s1 : St) (i : Nat) (it it' : IterBuf) (m arg k r : Nat)
     (hne : it.pos ≠ m) (hd : deref f P s i it arg = some (s1, .ok, it')) (hk : r + it'.buf ≥ k) :
     accLoop (f+1) P s i it m arg 1 k r = some (s1, .ok, r + it'.buf) :=
   accLoop_stop_reached f P s s1 i it it' m arg k r hne hd hk
+
+example : accLoop 3 exProg exSt 1 { pos := 2 } 6 5 1 60 0 = some (exSt2, .ok, 0 + 75) :=
+  accLoop_stop_returns 2 exProg exSt exSt2 1 _ _ 6 5 60 0 (by decide) exDeref2 (by decide)
 
 theorem accLoop_stop_moves (f : Nat) (P : Prog) (s s1 : St) (i : Nat) (it it' : IterBuf) (m arg k r : Nat)
     (im : Impl) (nxt : Nat) (hne : it.pos ≠ m) (hd : deref f P s i it arg = some (s1, .ok, it'))
@@ -305,6 +315,10 @@ theorem accLoop_stop_moves (f : Nat) (P : Prog) (s s1 : St) (i : Nat) (it it' : 
     accLoop (f+1) P s i it m arg 1 k r
       = accLoop f P s1 i { it' with pos := nxt, invoked := false } m arg 1 k (r + it'.buf) :=
   accLoop_stop_step f P s s1 i it it' m arg k r im nxt hne hd hk hi hn
+
+example : accLoop 3 exProg exSt 1 { pos := 2 } 6 5 1 100 0
+    = accLoop 2 exProg exSt2 1 { pos := 3, invoked := false, buf := 75 } 6 5 1 100 (0 + 75) :=
+  accLoop_stop_moves 2 exProg exSt exSt2 1 _ _ 6 5 100 0 exImpl 3 (by decide) exDeref2 (by decide) rfl (by decide)
 
 /-- `twice`: `r += *it; r += *it; ++it` — the second dereference is of the iterator the first returned -/
 theorem accLoop_twice_moves (f : Nat) (P : Prog) (s s1 s2 : St) (i : Nat) (it it' it2 : IterBuf) (m arg k r : Nat)
@@ -315,6 +329,11 @@ theorem accLoop_twice_moves (f : Nat) (P : Prog) (s s1 s2 : St) (i : Nat) (it it
       = accLoop f P s2 i { it2 with pos := nxt, invoked := false } m arg 2 k (r + it'.buf + it2.buf) :=
   accLoop_twice_step f P s s1 s2 i it it' it2 m arg k r im nxt hne hd hd2 hi hn
 
+example : accLoop 3 exProg exSt 1 { pos := 2 } 6 5 2 0 0
+    = accLoop 2 exProg exSt2 1 { pos := 3, invoked := false, buf := 75 } 6 5 2 0 (0 + 75 + 75) :=
+  accLoop_twice_moves 2 exProg exSt exSt2 exSt2 1 _ _ _ 6 5 0 0 exImpl 3 (by decide) exDeref2
+    (deref_twice_invokes_once 1 exProg exSt2 1 5 _ exImpl (exCell 2 7 false) rfl rfl rfl) rfl (by decide)
+
 /-- `postinc`: `old = it++; r += *old` -/
 theorem accLoop_postinc_moves (f : Nat) (P : Prog) (s s1 : St) (i : Nat) (it it' : IterBuf) (m arg k r : Nat)
     (im : Impl) (nxt : Nat) (hne : it.pos ≠ m) (hd : deref f P s i it arg = some (s1, .ok, it'))
@@ -323,11 +342,25 @@ theorem accLoop_postinc_moves (f : Nat) (P : Prog) (s s1 : St) (i : Nat) (it it'
       = accLoop f P s1 i { it with pos := nxt, invoked := false } m arg 4 k (r + it'.buf) :=
   accLoop_postinc_step f P s s1 i it it' m arg k r im nxt hne hd hi hn
 
+example : accLoop 3 exProg exSt 1 { pos := 2 } 6 5 4 0 0
+    = accLoop 2 exProg exSt2 1 { pos := 3, invoked := false, buf := 0 } 6 5 4 0 (0 + 75) :=
+  accLoop_postinc_moves 2 exProg exSt exSt2 1 _ _ 6 5 0 0 exImpl 3 (by decide) exDeref2 rfl (by decide)
+
 /-- an exception leaves the accumulator at once with the outcome `exc` -/
 theorem accLoop_exception (f : Nat) (P : Prog) (s s1 : St) (i : Nat) (it it' : IterBuf) (m arg mode k r : Nat)
     (hne : it.pos ≠ m) (hm : mode ≠ 3) (hd : deref f P s i it arg = some (s1, .exc, it')) :
     accLoop (f+1) P s i it m arg mode k r = some (s1, .exc, r) :=
   accLoop_exc f P s s1 i it it' m arg mode k r hne hm hd
+
+/-- functor 7 throws: the accumulator `sum` is left at once with `exc` -/
+example : ∃ s1, accLoop 6 exProgT exSt 1 { pos := 2 } 6 5 0 0 0 = some (s1, .exc, 0) := by
+  have h : (deref 5 exProgT exSt 1 { pos := 2 } 5).map (fun x => x.2.1) = some .exc := by decide +kernel
+  cases hd : deref 5 exProgT exSt 1 { pos := 2 } 5 with
+  | none => rw [hd] at h; simp at h
+  | some res =>
+    obtain ⟨s1, o, it'⟩ := res
+    rw [hd] at h; simp at h; subst h
+    exact ⟨s1, accLoop_exception 5 _ _ s1 _ _ it' _ _ 0 _ _ (by decide) (by decide) hd⟩
 
 /-- reverse walk: `--it` (predecessor in the current list, flag reset), then `r += *it` -/
 theorem revLoop_moves (f : Nat) (P : Prog) (s : St) (i : Nat) (it : IterBuf) (first arg r : Nat)
@@ -344,6 +377,9 @@ theorem revLoop_stops_at_begin (f : Nat) (P : Prog) (s : St) (i : Nat) (it : Ite
     (h : it.pos = first) : revLoop (f+1) P s i it first arg r = some (s, .ok, r) :=
   revLoop_at_begin f P s i it first arg r h
 
+example : revLoop 1 exProg exSt 1 { pos := 2 } 2 5 7 = some (exSt, .ok, 7) :=
+  revLoop_stops_at_begin 0 _ _ _ _ _ _ _ rfl
+
 example : revLoop 3 exProg exSt 1 { pos := 4, invoked := true, buf := 9 } 3 5 0 = some (exSt, .ok, 9) := by
   rw [revLoop_moves 2 exProg exSt 1 _ 3 5 0 exImpl 3 (by decide) rfl (by decide)]
   rw [deref_blocked_not_invoked 1 _ _ _ _ _ exImpl (exCell 3 8 true) rfl rfl rfl]
@@ -356,12 +392,20 @@ theorem walkLoop_inc_moves (f : Nat) (P : Prog) (s : St) (i : Nat) (it : IterBuf
       = walkLoop f P s i { it with pos := nxt, invoked := false } first m arg cs r :=
   walkLoop_inc f P s i it first m arg r cs im nxt hne hi hn
 
+example : walkLoop 2 exProg exSt 1 { pos := 2, invoked := true, buf := 9 } 2 6 5 ['i'] 0
+    = walkLoop 1 exProg exSt 1 { pos := 3, invoked := false, buf := 9 } 2 6 5 [] 0 :=
+  walkLoop_inc_moves 1 exProg exSt 1 _ 2 6 5 0 [] exImpl 3 (by decide) rfl (by decide)
+
 theorem walkLoop_dec_moves (f : Nat) (P : Prog) (s : St) (i : Nat) (it : IterBuf) (first m arg r : Nat) (cs : List Char)
     (im : Impl) (prv : Nat) (hne : it.pos ≠ first) (hi : aget s.impls i = some im)
     (hp : predId im.cells it.pos = some prv) :
     walkLoop (f+1) P s i it first m arg ('x' :: cs) r
       = walkLoop f P s i { it with pos := prv, invoked := false } first m arg cs r :=
   walkLoop_dec f P s i it first m arg r cs im prv hne hi hp
+
+example : walkLoop 2 exProg exSt 1 { pos := 4, invoked := true, buf := 9 } 2 6 5 ['x'] 0
+    = walkLoop 1 exProg exSt 1 { pos := 3, invoked := false, buf := 9 } 2 6 5 [] 0 :=
+  walkLoop_dec_moves 1 exProg exSt 1 _ 2 6 5 0 [] exImpl 3 (by decide) rfl (by decide)
 
 example : walkLoop 3 exProg exSt 1 { pos := 2, invoked := true, buf := 9 } 2 6 5 ['i', 'x'] 0 = some (exSt, .ok, 0) := by
   rw [walkLoop_inc_moves 2 exProg exSt 1 _ 2 6 5 0 ['x'] exImpl 3 (by decide) rfl (by decide)]
@@ -378,6 +422,10 @@ theorem walkLoop_deref_step (f : Nat) (P : Prog) (s : St) (i : Nat) (it : IterBu
        | some (s, .ok, it) => walkLoop f P s i it first m arg cs (r + it.buf)) :=
   walkLoop_deref f P s i it first m arg r cs hne
 
+example : walkLoop 3 exProg exSt 1 { pos := 2 } 2 6 5 ['d'] 0 = some (exSt2, .ok, 0 + 75) := by
+  rw [walkLoop_deref_step 2 exProg exSt 1 _ 2 6 5 0 [] (by decide), exDeref2]
+  exact walkLoop_nil _ _ _ _ _ _ _ _ _
+
 /-- `c`: a copy is dereferenced; the iterator itself keeps its flag (so a later `d` invokes again) -/
 theorem walkLoop_copy_step (f : Nat) (P : Prog) (s : St) (i : Nat) (it : IterBuf) (first m arg r : Nat) (cs : List Char)
     (hne : it.pos ≠ m) :
@@ -387,6 +435,11 @@ theorem walkLoop_copy_step (f : Nat) (P : Prog) (s : St) (i : Nat) (it : IterBuf
        | some (s, .exc, _) => some (s, .exc, r)
        | some (s, .ok, cp) => walkLoop f P s i it first m arg cs (r + cp.buf)) :=
   walkLoop_deref_copy f P s i it first m arg r cs hne
+
+/-- the copy was dereferenced: the iterator itself (`{ pos := 2 }`, not invoked) goes on -/
+example : walkLoop 3 exProg exSt 1 { pos := 2 } 2 6 5 ['c'] 0 = some (exSt2, .ok, 0 + 75) := by
+  rw [walkLoop_copy_step 2 exProg exSt 1 _ 2 6 5 0 [] (by decide), exDeref2]
+  exact walkLoop_nil _ _ _ _ _ _ _ _ _
 
 /-! ## `acc_called_once_with_snapshot`: one accumulator call / one loop per emission -/
 
